@@ -3,7 +3,7 @@ paths (component-wise key equality decided by the solver), HashSet<String>, Box<
 the concrete rivia type, drop glue for MemfsFile."""
 import re
 
-from .engine import CallBack, FnItem, Identity, Panic, Unsupported
+from .engine import CallBack, FnItem, Identity, Panic, Unsupported, Yield
 from .models import SStr, VecM, _last_ref, _obj, opt_none, opt_some, rx, sstr_of
 from .textpath import PathBufT, path_eq_text, text_of
 from .values import B, BV, I, UNIT, Adt, BoxRef, Ref, Str, b_and
@@ -83,6 +83,9 @@ def make_mem_models():
             lock = o.fields[0]
         write = callee.endswith("::write")
         tid = st.meta.get("tid", 0)
+        if lk is not None and st.meta.get("sched") and not st.meta.get("granted"):
+            raise Yield(dict(lock=lk, write=write, tid=tid))
+        st.meta["granted"] = False
         if lk is not None:
             mine_r = lk.readers.get(tid, 0)
             others_r = sum(v for k, v in lk.readers.items() if k != tid)
@@ -435,6 +438,7 @@ def make_mem_models():
         (rx(r"^<[TU] as AsRef<\[u8\]>>::as_ref$"), m_as_bytes),
         (rx(r"^(?:core::)?str::<impl str>::as_bytes$"), m_as_bytes),
         (rx(r"^<Vec<u8> as (?:std::io::)?Write>::write$"), m_vec_u8_write),
+        (rx(r"^Vec::<u8>::extend_from_slice$"), lambda ex, st, args, callee, ty: (_obj(ex, st, args[0]).items.extend(_obj(ex, st, args[1]).items), UNIT)[1]),
         (rx(r"^<Vec<u8> as Clone>::clone$"), m_vec_u8_clone),
         (rx(r"^<Vec<u8> as Clone>::clone_from$"), m_vec_u8_clone_from),
         (rx(r"^Vec::<u8>::clear$"), m_vec_u8_clear),
@@ -454,6 +458,8 @@ def make_mem_models():
         (rx(r"^Vec::<.*>::len$"), m_vec_len),
         (rx(r"^Vec::<.*>::clear$"), m_vec_u8_clear),
         (rx(r"^<String as Add<&str>>::add$"), m_string_add),
+        (rx(r"^(?:std::io::)?Error::new::<.*>$"), lambda ex, st, args, callee, ty: Adt("io::Error", None, None, [args[0]])),
+        (rx(r"^<RvError as From<(?:std::io::)?Error>>::from$"), lambda ex, st, args, callee, ty: Adt("RvError", None, "Io", [args[0]])),
         (rx(r"^<Vec<.*> as Deref>::deref$"), lambda ex, st, args, callee, ty: ref_of(ex, st, args[0])),
         (rx(r"^(?:core::slice::)?<impl \[[TU]\]>::iter$"), m_slice_iter),
         (rx(r"^(?:\w+::)*<impl \[&str\]>::join::<&str>$"), m_join),
